@@ -29,7 +29,7 @@ TRUSTED_BASE = [
     "Extraction: ExtrOcamlBasic only (bool, option, unit, list, prod, sumbool, comparison -> OCaml natives); no Extract Constant/Inductive of ours; OCaml 4.13.1, zarith for decimal I/O",
     "Driver glue (driver/conv.ml, driver/driver.ml): hex/decimal parsing and printing, Obj.magic between Coq's 256-constructor byte and int (self-checked at start-up)",
     "Correspondence: Go harness (harness/*.go) built with -tags verif against /repo's working tree; generators; Go 1.23 toolchain",
-    "Translator (tie B): translator/*.go, Go AST -> Gallina for the listed pure functions/constants",
+    "Translator (second tie, properties with a *_code.v file): translator/main.go (go/parser + go/types -> Gallina over coq/gosem/GoSem.v), regenerated from /repo on every run; GoSem.v states the Go semantics assumed (64-bit wrap, slices as values with tracked local aliasing, maps as association lists, pointers as values, nil test on empty slices as an oracle, loops on fuel)",
     "Modelled, not verified: Go runtime semantics (slices, maps, 64-bit wrap, bytes.Compare, strings.Split, strconv), os/file-system semantics, hash/crc32 (bitwise model validated against the real one on every run)",
 ]
 
@@ -64,7 +64,7 @@ def coq_build():
 
 def coq_scan_forbidden():
     hits = []
-    for d in ("theories", "properties", "extract", "gen"):
+    for d in ("theories", "properties", "extract", "gosem", "generated", "properties_code"):
         p = os.path.join(COQ, d)
         if not os.path.isdir(p):
             continue
@@ -127,6 +127,119 @@ def coqchk_property(pid):
     ok = rc == 0 and "Axioms: <none>" in summary and "type-in-type: <none>" in summary and \
         "unsafe (co)fixpoints: <none>" in summary and "positivity is assumed: <none>" in summary
     return ok, summary
+
+
+# ---------------------------------------------------------------- translation tie
+TRANSLATOR_DIR = os.path.join(ROOT, "translator")
+TRANSLATOR = os.path.join(TRANSLATOR_DIR, "_bin", "veriftr")
+TIE_ARGS = ["-Q", "theories", "Verif", "-Q", "gosem", "VerifGo", "-Q", "generated", "VerifGen", "-Q", "properties_code", "VerifCode"]
+TIES = {
+    # name: Go package dir (relative to /repo), translator arguments, generated file, Coq files depending on it (in order)
+    "list": dict(dir="ds/list", args=[], gen="generated/GoList.v",
+                 chain=["gosem/GoListFacts.v", "gosem/GoListLPush.v", "gosem/GoListLRem.v", "gosem/GoListCode.v"]),
+}
+# which ties a property depends on, and its code-level property file
+TIES_FOR = {"C05": ["list"], "C20": ["list"]}
+CODE_PROPS = {"C05": "properties_code/C05_code.v", "C20": "properties_code/C05_code.v"}
+
+
+def build_translator():
+    os.makedirs(os.path.join(TRANSLATOR_DIR, "_bin"), exist_ok=True)
+    rc, out = sh(["go", "build", "-o", TRANSLATOR, "."], cwd=TRANSLATOR_DIR, timeout=600, env=GOENV)
+    return rc == 0, out
+
+
+def _needs_compile(v, newest_dep):
+    vo = v[:-2] + ".vo"
+    if not os.path.exists(vo):
+        return True
+    m = os.path.getmtime(vo)
+    return m < os.path.getmtime(v) or m < newest_dep
+
+
+def _coqc_tie(rel, newest_dep):
+    """Compiles coq/<rel> when out of date. Returns (ok, output, mtime of the .vo)."""
+    v = os.path.join(COQ, rel)
+    if _needs_compile(v, newest_dep):
+        rc, out = sh(["coqc"] + TIE_ARGS + [rel], cwd=COQ, timeout=1500)
+        if rc != 0:
+            try:
+                os.remove(v[:-2] + ".vo")
+            except OSError:
+                pass
+            return False, out, 0
+    return True, "", os.path.getmtime(v[:-2] + ".vo")
+
+
+def translation_tie(name):
+    """Regenerates coq/generated/<X>.v from /repo's current source with the translator and
+    re-checks every Coq file that depends on it.  Returns dict(ok, stage, file, output, functions, regenerated)."""
+    import fcntl
+    tie = TIES[name]
+    res = dict(name=name, ok=False, stage="", file="", output="", functions=[], skipped=[], regenerated=False)
+    lock = open(os.path.join(COQ, ".tie.lock"), "w")
+    fcntl.flock(lock, fcntl.LOCK_EX)
+    try:
+        ok, out = build_translator()
+        if not ok:
+            res.update(stage="translator build", output=out[-3000:])
+            return res
+        tmp = os.path.join(scratch_dir("tie-" + name), "out.v")
+        try:
+            rc, out = sh([TRANSLATOR, "-dir", tie["dir"], "-out", tmp] + tie["args"], cwd=REPO, timeout=600, env=GOENV)
+            if rc != 0:
+                res.update(stage="translation (the package no longer parses / type-checks)", output=out[-3000:])
+                return res
+            new = open(tmp).read()
+        finally:
+            shutil.rmtree(os.path.dirname(tmp), ignore_errors=True)
+        gen = os.path.join(COQ, tie["gen"])
+        os.makedirs(os.path.dirname(gen), exist_ok=True)
+        old = open(gen).read() if os.path.exists(gen) else None
+        if old != new:
+            open(gen, "w").write(new)
+            res["regenerated"] = True
+        res["functions"] = re.findall(r"^\(\* \S+  func (\S+) \*\)", new, re.M)
+        m = re.search(r"\(\* not translated:\n(.*?)\*\)", new, re.S)
+        res["skipped"] = [l.strip() for l in (m.group(1) if m else "").split("\n") if l.strip()]
+        newest = max([os.path.getmtime(os.path.join(COQ, "theories", f)) for f in os.listdir(os.path.join(COQ, "theories")) if f.endswith(".vo")] or [0])
+        for rel in ["gosem/GoSem.v", tie["gen"]] + tie["chain"]:
+            ok, out, mt = _coqc_tie(rel, newest)
+            if not ok:
+                res.update(stage="coqc", file=rel, output=out[-3000:])
+                return res
+            newest = max(newest, mt)
+        res["ok"] = True
+        res["newest"] = newest
+        return res
+    finally:
+        fcntl.flock(lock, fcntl.LOCK_UN)
+        lock.close()
+
+
+def coq_code_obligations(pid, newest_dep=0):
+    """Re-checks the code-level property file of pid (theorems about the translated Go code)."""
+    rel = CODE_PROPS.get(pid)
+    res = dict(obligations=0, discharged=0, theorems=[], ok=True, output="", file=rel)
+    if not rel:
+        return res
+    src = os.path.join(COQ, rel)
+    text = open(src).read()
+    names = re.findall(r"^\s*(?:Theorem|Lemma|Corollary)\s+(\w+)", text, re.M)
+    examples = re.findall(r"^\s*Example\s+(\w+)", text, re.M)
+    res["obligations"] = len(names) + len(examples)
+    rc, out = sh(["coqc"] + TIE_ARGS + [rel], cwd=COQ, timeout=1200)
+    res["output"] = out
+    if rc != 0:
+        res["ok"] = False
+        return res
+    printed = re.findall(r"^\s*Print Assumptions\s+(\w+)", text, re.M)
+    blocks = re.split(r"(?m)^(?=Closed under the global context|Axioms:)", out)
+    blocks = [b.strip() for b in blocks if b.strip().startswith(("Closed under", "Axioms:"))]
+    res["theorems"] = [(n, blocks[i] if i < len(blocks) else "?") for i, n in enumerate(printed)]
+    res["discharged"] = res["obligations"]
+    res["unprinted"] = [n for n in names if n not in printed]
+    return res
 
 
 # ---------------------------------------------------------------- builds
